@@ -31,6 +31,8 @@ LEAVES = {"allowed": ("collections", "OrderedDict"), "nonstd": ("vp_sink", "hit"
           # allow-listed, but its package is not installed in this image: the load fails inside the allowed resolution
           "allowlisted-absent": ("transformers.training_args", "TrainingArguments", "IMPORT")}
 ADDITIONS = {"none": (), "loads": ("pickle.loads", "_pickle.loads"), "sink": ("vp_sink.hit",),
+             # a name of which the sink's name is a substring, in a module the built-in list does not have
+             "superstring": ("vp_sink.hit_and_more",),
              "all": ("pickle.loads", "_pickle.loads", "vp_sink.hit")}
 ENTRIES = ("pickle.load", "pickle.loads", "_pickle.load", "_pickle.loads",
            # bytes-like arguments other than bytes
@@ -291,6 +293,44 @@ def _via(tree, rfc, g):
     return tree[depth - 1]
 
 
+def _stream_reuse(item):
+    """One stream holding two pickles, read by two loads with a re-activation (other additions) in between: the second load
+    is mediated by the activation in force when it is made."""
+    import warnings
+
+    import fickling.hook as hook
+    from fickling.exception import UnsafeFileError
+
+    warnings.simplefilter("ignore")
+    entry, first_adds, second_adds, removed_between = item
+    out = e1.Out()
+    restore()
+    fn = {"pickle.load": lambda s: pickle.load(s), "_pickle.load": lambda s: _pickle.load(s)}[entry]
+    stream = io.BytesIO(b"N." + _FOLLOW_UP)
+    hook.activate_safe_ml_environment(also_allow=list(first_adds) or None)
+    try:
+        fn(stream)
+        if removed_between:
+            hook.remove_hook()
+            restore()
+        hook.activate_safe_ml_environment(also_allow=list(second_adds) or None)
+        how, val, log, fc = observed(lambda: fn(stream))
+    finally:
+        hook.remove_hook()
+        restore()
+    out.stats.inc("stream_reuse_loads")
+    allowed_now = ("vp_sink.hit" in second_adds)
+    if not allowed_now and (log or ("vp_sink", "hit") in fc or how != "raised" or not chain_has(val, UnsafeFileError)):
+        out.violate(PROP, f"C07|stream-reused-across-activations|{entry}", f"{entry}: first pickle of a stream loaded under additions {list(first_adds)}, "
+                    f"environment re-activated with {list(second_adds)}{' after remove_hook' if removed_between else ''}, second pickle of the same "
+                    f"stream names vp_sink.hit: {how} {type(val).__name__ if how == 'raised' else ''}, resolved {fc}, sink calls {len(log)}",
+                    {"engine": "E3", "entry": entry, "first": list(first_adds), "second": list(second_adds), "removed_between": removed_between}, 2)
+    if allowed_now and how != "returned":
+        out.violate(PROP, f"C07|stream-reused-across-activations|allowed-load-fails|{entry}", f"{entry}: second pickle names vp_sink.hit which the "
+                    f"activation in force allows, but the load raised {type(val).__name__}", {"engine": "E3", "entry": entry}, 2)
+    return out
+
+
 def check(tier):
     rep = Report(PROP, tier)
     dmax = 3 if tier == "thorough" else 2
@@ -301,6 +341,9 @@ def check(tier):
     items = [(t, leaf) for t in trees for leaf in LEAVES]
     pristine_base()
     e3.pmap(_tree, items, rep, chunksize=8)
+    reuse = [(e, a, b, r) for e in ("pickle.load", "_pickle.load") for a in (("vp_sink.hit",), ()) for b in ((), ("vp_sink.hit",), ("vp_sink.other",))
+             for r in (False, True)]
+    e3.pmap(_stream_reuse, reuse, rep, chunksize=2)
     restore()
     n = rep.cov.get("protected_loads", 0)
     e3.finish_counts(rep, len(items) * len(ADDITIONS) * len(ENTRIES), n + rep.cov.get("reference_runs", 0), len(items))
